@@ -14,7 +14,13 @@ cargo test --offline -j 8 --test demo_mutant -- --test-threads 1 > "$out/c_clean
 git apply "$out/patch.diff"
 cargo test --offline -j 8 --test demo_mutant -- --test-threads 1 > "$out/c_patch.log" 2>&1; patched=$?
 rm -f tests/demo_mutant.rs
-cargo test --workspace --no-fail-fast --offline -j 8 > "$out/c_suite.log" 2>&1; suite=$?
+cargo test --workspace --no-run --offline -j 8 > "$out/c_suite_build.log" 2>&1
+# private network namespace: other suites on this machine bind the same 127.x.y.z test sockets
+if unshare -n true 2>/dev/null; then
+  unshare -n sh -c 'ip link set lo up; exec cargo test --workspace --no-fail-fast --offline -j 8' > "$out/c_suite.log" 2>&1; suite=$?
+else
+  cargo test --workspace --no-fail-fast --offline -j 8 > "$out/c_suite.log" 2>&1; suite=$?
+fi
 passed=$(grep -o '[0-9]* passed' "$out/c_suite.log" | awk '{s+=$1} END{print s+0}')
 failed=$(grep -o '[0-9]* failed' "$out/c_suite.log" | awk '{s+=$1} END{print s+0}')
 git checkout -q -- .
